@@ -9,14 +9,19 @@ and replayed.
 import queue
 import sys
 import threading
+import time
 
 
 class SchedulerError(Exception):
     pass
 
 
+class SchedulerDeadlock(SchedulerError):
+    """every unfinished worker is running (none is paused by the scheduler) and none makes progress"""
+
+
 class Run(object):
-    def __init__(self, nworkers, schedule, where, func_names=None, timeout=60):
+    def __init__(self, nworkers, schedule, where, func_names=None, timeout=60, block_interval=0.025, block_samples=6):
         """where: {filename suffix: iterable of function names} (or a suffix plus func_names)"""
         self.n = nworkers
         self.schedule = list(schedule)
@@ -24,6 +29,10 @@ class Run(object):
             where = {where: func_names}
         self.where = dict((k, frozenset(v)) for k, v in where.items())
         self.timeout = timeout
+        self.block_interval = block_interval
+        self.block_samples = block_samples
+        self.native = [None] * nworkers
+        self.blocked = 0         # times a resumed worker was found blocked (see run)
         self.q = queue.Queue()
         self.go = [threading.Event() for _ in range(nworkers)]
         self.trace = []          # worker ids in the order they were actually resumed
@@ -50,6 +59,7 @@ class Run(object):
         return tracer
 
     def _worker(self, tid, fn):
+        self.native[tid] = threading.get_native_id()
         self.go[tid].wait()
         self.go[tid].clear()
         sys.settrace(self._global_trace(tid))
@@ -62,32 +72,76 @@ class Run(object):
             sys.settrace(None)
             self.q.put(('done', tid))
 
+    def _sleeping(self, tid):
+        """(state, cpu ticks) of the worker's OS thread from /proc, or None where that is not available"""
+        try:
+            with open('/proc/self/task/%d/stat' % self.native[tid]) as f:
+                fields = f.read().rsplit(')', 1)[1].split()
+            return fields[0], int(fields[11]) + int(fields[12])
+        except Exception:  # noqa
+            return None
+
+    def _wait(self, watch, inflight):
+        """next message; None if worker `watch` is found blocked: asleep (not runnable, not waiting for a core) and
+        using no CPU over block_samples consecutive observations, i.e. waiting for something a paused worker holds.
+        Without /proc a blocked worker is only recognised by the overall timeout."""
+        deadline = time.time() + self.timeout
+        quiet = 0
+        last = None
+        while True:
+            try:
+                return self.q.get(timeout=self.block_interval)
+            except queue.Empty:
+                pass
+            if time.time() > deadline:
+                raise SchedulerDeadlock('workers %s did not yield or finish within %ds' % (sorted(inflight), self.timeout))
+            if watch is None:
+                continue
+            cur = self._sleeping(watch)
+            if cur is not None and cur[0] == 'S' and cur == last:
+                quiet += 1
+                if quiet >= self.block_samples:
+                    return None
+            else:
+                quiet = 0
+            last = cur
+
     def run(self, fns):
+        """Exactly one worker runs at a time as long as no worker blocks on a lock held by a paused worker.  A worker that
+        is asleep without using CPU (see _wait) while another worker is paused is taken to be blocked on
+        something the paused worker holds: it stays 'in flight' and another worker is resumed; it reports by itself once it
+        gets through.  (Code under test that serialises its threads with a lock is thereby scheduled as the lock allows,
+        instead of hanging the controller.)"""
         threads = [threading.Thread(target=self._worker, args=(i, f), daemon=True) for i, f in enumerate(fns)]
         for t in threads:
             t.start()
         runnable = set(range(self.n))
+        inflight = set()
         pos = 0
         while runnable:
+            avail = runnable - inflight
             tid = None
-            while pos < len(self.schedule):
-                cand = self.schedule[pos]
-                pos += 1
-                if cand in runnable:
-                    tid = cand
-                    break
-            if tid is None:
-                tid = min(runnable)
-            self.trace.append(tid)
-            self.go[tid].set()
-            try:
-                msg = self.q.get(timeout=self.timeout)
-            except queue.Empty:
-                raise SchedulerError('worker %d did not yield or finish within %ds' % (tid, self.timeout))
-            if msg[1] != tid:
-                raise SchedulerError('worker %d reported while worker %d was scheduled' % (msg[1], tid))
+            if avail:
+                while pos < len(self.schedule):
+                    cand = self.schedule[pos]
+                    pos += 1
+                    if cand in avail:
+                        tid = cand
+                        break
+                if tid is None:
+                    tid = min(avail)
+                self.trace.append(tid)
+                inflight.add(tid)
+                self.go[tid].set()
+            msg = self._wait(tid if avail and len(avail) > 1 else None, inflight)
+            if msg is None:
+                self.blocked += 1
+                continue
+            if msg[1] not in inflight:
+                raise SchedulerError('worker %d reported while workers %s were scheduled' % (msg[1], sorted(inflight)))
+            inflight.discard(msg[1])
             if msg[0] == 'done':
-                runnable.discard(tid)
+                runnable.discard(msg[1])
         for t in threads:
             t.join(self.timeout)
         return self
